@@ -46,6 +46,17 @@ type c14World struct {
 	oracleDetail             string
 	otherSerialAccepted      int // responses for another serial accepted by ParseResponse(b, issuer)
 	skippedBoundary          int
+	// unexpected failures while setting a case up (never a panic: reported as a failed check)
+	setupFailures int
+	setupDetail   string
+}
+
+func (wd *c14World) setupFailed(what string, err error) {
+	wd.setupFailures++
+	if wd.setupDetail == "" {
+		wd.setupDetail = fmt.Sprint(what, ": ", err)
+	}
+	wd.w.Hist("setup-failed")
 }
 
 type c14Cert struct {
@@ -238,6 +249,25 @@ func (t *c14Tables) certBySerial(s string) *c14Cert {
 		}
 	}
 	return nil
+}
+
+// unknownCert registers a certificate the implementation shows but the harness never made or saw
+// issued (unexpected behaviour): it becomes part of the observation, so that the comparison
+// with the model fails instead of the harness.
+func (t *c14Tables) unknownCert(serial, name string, leaf *x509.Certificate) *c14Cert {
+	if leaf == nil {
+		sn, _ := new(big.Int).SetString(serial, 10)
+		if sn == nil {
+			sn = big.NewInt(-1)
+		}
+		now := time.Now()
+		leaf = &x509.Certificate{SerialNumber: sn, NotBefore: now.Add(-time.Hour), NotAfter: now.Add(90 * 24 * time.Hour)}
+	}
+	c := &c14Cert{name: name, leaf: leaf, url: true, flavor: "unknown"}
+	c.setKey()
+	t.addCert(c)
+	t.wd.w.Hist("hist.UNKNOWN-CERTIFICATE")
+	return c
 }
 
 func bigTime(t time.Time) string {
@@ -455,6 +485,11 @@ type c14View struct {
 }
 
 func (wd *c14World) runCall(in c14CallIn) {
+	defer func() {
+		if r := recover(); r != nil {
+			wd.setupFailed("panic while running a call case", fmt.Errorf("%v", r))
+		}
+	}()
 	t := wd.tables()
 	c := wd.newLeaf(in.Flavor, fmt.Sprintf("c%d.example", wd.serial+1))
 	t.addCert(c)
@@ -466,7 +501,8 @@ func (wd *c14World) runCall(in c14CallIn) {
 	ctx := context.Background()
 	cert, err := certmagic.VerifMakeCertificate(c.chainPEM, c.keyPEM)
 	if err != nil {
-		panic(err)
+		wd.setupFailed("makeCertificate on a harness leaf", err)
+		return
 	}
 	cfg := certmagic.OCSPConfig{DisableStapling: in.Disabled}
 	if in.Override == "off" && len(c.leaf.OCSPServer) > 0 {
@@ -619,7 +655,11 @@ func (h *c14Hist) snapshot(e *emit.Enc) (any, map[int]bool) {
 	for _, v := range views {
 		c := t.certBySerial(v.Serial)
 		if c == nil {
-			panic("cache holds a certificate the harness does not know: " + v.Serial)
+			name := "unknown.example"
+			if len(v.Names) > 0 {
+				name = v.Names[0]
+			}
+			c = t.unknownCert(v.Serial, name, nil)
 		}
 		ents = append(ents, ent{c.idx, v.Managed, t.optBlob(v.Staple, v.Staple != nil), t.optBlob(v.OCSPRaw, v.HasOCSP)})
 		inCache[c.idx] = true
@@ -673,7 +713,7 @@ func (h *c14Hist) served(e *emit.Enc) any {
 		}
 		c := t.certBySerial(tc.Leaf.SerialNumber.String())
 		if c == nil {
-			panic("GetCertificate returned an unknown certificate")
+			c = t.unknownCert(tc.Leaf.SerialNumber.String(), n, tc.Leaf)
 		}
 		s := t.optBlob(tc.OCSPStaple, tc.OCSPStaple != nil)
 		e.Bool(true).Int(c.idx)
@@ -685,6 +725,12 @@ func (h *c14Hist) served(e *emit.Enc) any {
 
 // runHist executes a plan and emits one case. Returns false if the plan could not be run.
 func (wd *c14World) runHist(plan c14Plan, desc map[string]any) {
+	defer func() {
+		if r := recover(); r != nil {
+			pj, _ := json.Marshal(plan)
+			wd.setupFailed("panic while running history "+string(pj), fmt.Errorf("%v", r))
+		}
+	}()
 	h := &c14Hist{wd: wd, t: wd.tables(), b: doubles.NewMemBackend()}
 	t := h.t
 	h.iss = &doubles.OCSPIssuer{Key: "ocspiss", CA: wd.ca, OCSPServer: []string{wd.resp.URL}}
@@ -721,7 +767,8 @@ func (wd *c14World) runHist(plan c14Plan, desc map[string]any) {
 			}
 			h.issued = nil
 			if err := h.cfg.ObtainCertSync(ctx, name); err != nil || len(h.issued) != 1 {
-				panic(fmt.Sprint("obtain: ", err, len(h.issued)))
+				wd.setupFailed("ObtainCertSync with the issuer double", fmt.Errorf("%v (%d issued)", err, len(h.issued)))
+				return
 			}
 			h.iss.NotAfter = nil
 			h.issued[0].flavor = pc.Flavor
@@ -736,10 +783,28 @@ func (wd *c14World) runHist(plan c14Plan, desc map[string]any) {
 	var steps []any
 	nsteps := 0
 	body := &emit.Enc{}
-	live := map[string]*c14Cert{} // name -> certificate currently cached under it
+	// cachedByName: what the implementation's cache really holds now, by name (never what the
+	// harness expects it to hold)
+	cachedByName := func() map[string]*c14Cert {
+		m := map[string]*c14Cert{}
+		for _, v := range certmagic.VerifCacheOCSPSnapshot(h.cache) {
+			if c := t.certBySerial(v.Serial); c != nil {
+				if old, ok := m[c.name]; !ok || c.idx > old.idx {
+					m[c.name] = c
+				}
+			}
+		}
+		return m
+	}
 	feat := map[string]bool{}
+	// own: per certificate, the staple the implementation itself persisted (a successful Store of
+	// exactly those bytes under ANY ocsp/ key while it attached them) and the harness has not
+	// touched since; prevStaple: the staples of the previous snapshot
+	own := map[int][]byte{}
+	prevStaple := map[int]string{}
 	for _, op := range plan.Ops {
 		se := &emit.Enc{}
+		ownRef := -1
 		now := time.Now()
 		mark, lmark := wd.resp.Mark(), len(h.b.Log.Snapshot())
 		h.issued, h.failed, h.failIssue = nil, nil, false
@@ -747,10 +812,11 @@ func (wd *c14World) runHist(plan c14Plan, desc map[string]any) {
 		switch op.Op {
 		case "tamper":
 			c := planned[op.Cert]
-			if cur := live[c.name]; cur != nil && c.managed {
+			if cur := cachedByName()[c.name]; cur != nil && c.managed {
 				c = cur
 			}
 			sa := c14Stored[op.Stored]
+			delete(own, c.idx) // the harness interferes with this certificate's persisted staple
 			se.Int(0).Int(c.idx)
 			if sa == nil {
 				h.b.Remove(c.key)
@@ -772,6 +838,10 @@ func (wd *c14World) runHist(plan c14Plan, desc map[string]any) {
 			}
 			a := op.Ans[fmt.Sprint(op.Cert)]
 			ev, ans := t.mkEnv(a, c, now, op.Faults)
+			if ob, ok := own[c.idx]; ok {
+				ownRef = t.blob(ob)
+				wd.w.Hist("hist.cache.own-persisted-staple")
+			}
 			h.cfg.OCSP.ResponderOverrides = nil
 			if a.Kind == "refused" {
 				h.cfg.OCSP.ResponderOverrides = map[string]string{wd.resp.URL: wd.refused}
@@ -801,9 +871,6 @@ func (wd *c14World) runHist(plan c14Plan, desc map[string]any) {
 			encEnv(se, ev)
 			se.Big(bigTime(now))
 			callCerts = []*c14Cert{c}
-			if live[c.name] == nil {
-				live[c.name] = c
-			}
 			feat["cache.ans="+a.label()] = true
 			wd.w.Hist("hist.cache.ans=" + a.Kind)
 		case "maintain":
@@ -901,22 +968,32 @@ func (wd *c14World) runHist(plan c14Plan, desc map[string]any) {
 				nc  *c14Cert
 			}
 			var ocs []oc
+			// attributed to the certificate that was cached under the name BEFORE the pass; anything
+			// the implementation did that cannot be attributed is left to the comparison of the
+			// observations (the harness never gives up on unexpected behaviour)
+			byName := map[string]*c14Cert{}
+			for _, c := range cached {
+				if old, ok := byName[c.name]; !ok || c.idx > old.idx {
+					byName[c.name] = c
+				}
+			}
 			for _, nc := range h.issued {
-				old := live[nc.name]
+				old := byName[nc.name]
 				if old == nil {
-					panic("issued for a name that is not live")
+					wd.w.Hist("hist.renew.UNATTRIBUTED")
+					continue
 				}
 				if op.Renew == "reload-fail" {
 					ocs = append(ocs, oc{old, 2, nil})
 				} else {
 					ocs = append(ocs, oc{old, 1, nc})
-					live[nc.name] = nc
 				}
 			}
 			for _, n := range h.failed {
-				if old := live[n]; old != nil {
+				if old := byName[n]; old != nil {
 					ocs = append(ocs, oc{old, 0, nil})
-					delete(live, n)
+				} else {
+					wd.w.Hist("hist.renew.UNATTRIBUTED")
 				}
 			}
 			se.Len(len(ocs))
@@ -936,7 +1013,6 @@ func (wd *c14World) runHist(plan c14Plan, desc map[string]any) {
 			callCerts = append(cached, h.issued...)
 		case "restart":
 			h.newInstance()
-			live = map[string]*c14Cert{}
 			se.Int(3)
 		}
 		t1 := time.Now()
@@ -945,9 +1021,27 @@ func (wd *c14World) runHist(plan c14Plan, desc map[string]any) {
 			return
 		}
 		// observation after the op
+		encOpt(se, ownRef)
 		snap, _ := h.snapshot(se)
 		reqs := wd.resp.Since(mark)
 		ops := h.b.Log.Snapshot()[lmark:]
+		curStaple := map[int]string{}
+		for _, v := range certmagic.VerifCacheOCSPSnapshot(h.cache) {
+			c := t.certBySerial(v.Serial)
+			if c == nil || v.Staple == nil {
+				continue
+			}
+			curStaple[c.idx] = string(v.Staple)
+			if prevStaple[c.idx] == string(v.Staple) {
+				continue
+			}
+			for _, o := range ops { // newly attached: did the implementation persist it (anywhere)?
+				if o.Kind == "Store" && strings.HasPrefix(o.Key, "ocsp/") && o.Err == "" && o.Digest == doubles.Digest(v.Staple) {
+					own[c.idx] = append([]byte(nil), v.Staple...)
+				}
+			}
+		}
+		prevStaple = curStaple
 		type cl struct {
 			Cert int     `json:"cert"`
 			Seen bool    `json:"seen"`
@@ -1181,6 +1275,10 @@ func runC14(tier string, seed int64, outdir string, replay string) error {
 			Name:   fmt.Sprintf("ocsp.ParseResponse(b, issuer) = ocsp.ParseResponse(b, nil) + signature check, no serial comparison (%d byte strings parsed both ways)", wd.oracleChecked),
 			OK:     wd.oracleBad == 0,
 			Detail: wd.oracleDetail})
+		w.Meta.Oracles = append(w.Meta.Oracles, emit.OracleCheck{
+			Name:   "harness set-up (makeCertificate on harness leaves, ObtainCertSync with the issuer double) succeeds",
+			OK:     wd.setupFailures == 0,
+			Detail: fmt.Sprintf("%d failures; first: %s", wd.setupFailures, wd.setupDetail)})
 		w.Meta.Extra = map[string]any{"skipped_boundary": wd.skippedBoundary}
 		w.Meta.Rule = "calls: stapling enabled and a persisted staple or a responder answer is examined, distinct (flavor, persisted state, earlier state, answer, faults) tuples; histories: distinct plans of at least 2 operations"
 		w.Close()
@@ -1229,16 +1327,33 @@ func runC14(tier string, seed int64, outdir string, replay string) error {
 		c14HOp{Op: "restart"},
 		c14HOp{Op: "cache", Cert: 0, Ans: one(c14Ans{Kind: "drop"})},
 		c14HOp{Op: "maintain", Ans: one(c14Ans{Kind: "drop"}), Renew: "ok"}), map[string]any{"class": "persist-restart-reuse"})
+	// persisted by the maintenance pass of one process, reused by the load path of the next
+	for _, managed := range []string{"u:normal", "m:normal"} {
+		stale := c14Ans{Kind: "resp", Status: ocsp.Good, Serial: "right", This: "old", Next: "plus6h", Signer: "ca"}
+		wd.runHist(mkPlan(managed,
+			c14HOp{Op: "cache", Cert: 0, Ans: one(stale)},
+			c14HOp{Op: "maintain", Ans: one(goodAns()), Renew: "ok"},
+			c14HOp{Op: "restart"},
+			c14HOp{Op: "cache", Cert: 0, Ans: one(c14Ans{Kind: "drop"})},
+			c14HOp{Op: "maintain", Ans: one(c14Ans{Kind: "drop"}), Renew: "ok"}), map[string]any{"class": "maintenance-persist-restart-reuse"})
+	}
 	for _, rn := range []string{"ok", "fail", "reload-fail"} {
 		for _, reason := range []int{0, 1} {
+			// Good when cached, past the middle of its validity (so that the pass refreshes it), the
+			// responder says Revoked DURING a maintenance pass
+			staleGood := c14Ans{Kind: "resp", Status: ocsp.Good, Serial: "right", This: "old", Next: "plus6h", Signer: "ca"}
 			wd.runHist(mkPlan("m:normal,u:normal",
-				c14HOp{Op: "cache", Cert: 0, Ans: one(goodAns())},
-				c14HOp{Op: "cache", Cert: 1, Ans: one(goodAns())},
-				c14HOp{Op: "tamper", Cert: 0, Stored: "absent"},
-				c14HOp{Op: "tamper", Cert: 1, Stored: "absent"},
-				c14HOp{Op: "maintain", Ans: one(c14Ans{Kind: "resp", Status: ocsp.Good, Serial: "right", This: "old", Next: "plus6h", Signer: "ca"}), Renew: rn},
+				c14HOp{Op: "cache", Cert: 0, Ans: one(staleGood)},
+				c14HOp{Op: "cache", Cert: 1, Ans: one(staleGood)},
+				c14HOp{Op: "maintain", Ans: one(staleGood), Renew: rn},
 				c14HOp{Op: "maintain", Ans: one(revokedAns(reason)), Renew: rn},
 				c14HOp{Op: "maintain", Ans: one(revokedAns(reason)), Renew: rn}), map[string]any{"class": "revoked-" + rn})
+			// the same with a fresh Good staple whose persisted copy is gone: nothing is due, so the
+			// pass must not even ask
+			wd.runHist(mkPlan("m:normal",
+				c14HOp{Op: "cache", Cert: 0, Ans: one(goodAns())},
+				c14HOp{Op: "tamper", Cert: 0, Stored: "absent"},
+				c14HOp{Op: "maintain", Ans: one(revokedAns(reason)), Renew: rn}), map[string]any{"class": "fresh-not-asked-" + rn})
 			wd.runHist(mkPlan("m:normal",
 				c14HOp{Op: "cache", Cert: 0, Ans: one(revokedAns(reason))},
 				c14HOp{Op: "maintain", Ans: one(goodAns()), Renew: rn},
